@@ -1,5 +1,627 @@
 import RV.Json
+import RV.Model.Isolation
+import RV.Oracle.Isolation
+/-
+  Driver of suite `isolation` (C19).  For every op the model is run on the joint trace and on every
+  rollout's projection; closure results / API facts that the model takes as inputs are read from the
+  implementation's step records and echoed; everything the model predicts (retry / error / recheck
+  results, the content of the shared map after every step) overwrites the echoed record, so that a
+  difference shows up in the comparison.  The oracles are evaluated on the implementation's records.
+-/
 namespace RV.Drv.Isolation
-open Lean RV
-def handle : Handler := fun op _ _ => .error s!"Isolation: op {op} not implemented"
+open Lean RV RV.Isolation RV.Oracle.Isolation
+
+def sortStr (l : List String) : List String := (l.toArray.qsort (· < ·)).toList
+def sortBy {α : Type} (f : α → String) (l : List α) : List α := (l.toArray.qsort (fun a b => f a < f b)).toList
+
+def fIntD (j : Json) (k : String) (d : Int) : R Int :=
+  match jopt j k with
+  | none => pure d
+  | some v => jint v
+
+def fStrD (j : Json) (k : String) (d : String) : String :=
+  match jopt j k with
+  | some (.str s) => s
+  | _ => d
+
+def fBoolD (j : Json) (k : String) (d : Bool) : Bool :=
+  match jopt j k with
+  | some (.bool b) => b
+  | _ => d
+
+/-! ## events -/
+
+inductive RawEv where
+  | op (r : Nat) (j : Json)
+  | tick (d : Nat)
+  | clean (iv : Nat)
+
+def rawEvents (inp : Json) : R (List RawEv) := do
+  (← fArrD inp "events").mapM fun e => do
+    match ← fStr e "t" with
+    | "tick" => return .tick (← fNat e "d")
+    | "clean" => return .clean (← fNat e "iv")
+    | "op" => return .op (← fNat e "r") e
+    | t => throw s!"isolation: unknown event {t}"
+
+def gopOf (j : Json) : R GOp := do
+  let key ← fStr j "key"
+  let action := fStrD j "action" ""
+  match ← fStr j "k" with
+  | "expect" => return .expect key action
+  | "observe" => return .observe key action
+  | "sat" => return .satisfied key action (← fIntD j "grace" 0)
+  | "delete" => return .delete key
+  | "get" => return .get key
+  | "run" => return .run key action (← fIntD j "grace" 0) (fBoolD j "modified" false) (fBoolD j "err" false)
+  | k => throw s!"isolation: unknown grace op {k}"
+
+def eopOf (j : Json) : R EOp := do
+  let ck ← fStr j "ck"
+  let action := fStrD j "action" ""
+  let name := fStrD j "name" ""
+  match ← fStr j "k" with
+  | "expect" => return .expect ck action name
+  | "observe" => return .observe ck action name
+  | "sat" => return .satisfied ck
+  | "delete" => return .delete ck
+  | "get" => return .get ck
+  | k => throw s!"isolation: unknown exp op {k}"
+
+/-! ## JSON of observations and stores -/
+
+def graceDump (now : Nat) (g : Grace) : Json :=
+  arrJ <| (sortBy (·.1) g).flatMap fun (k, tc) =>
+    if tc.isEmpty then [arrJ [strJ k, strJ "", intJ (-1)]]
+    else (sortBy (·.1) tc).map fun (a, t) => arrJ [strJ k, strJ a, natJ (now - t)]
+
+def gobsJ : GObs → Json
+  | .unit => mkObj [("t", strJ "unit")]
+  | .sat ok rem => mkObj [("t", strJ "sat"), ("ok", boolJ ok), ("rem", intJ rem)]
+  | .actions none => mkObj [("t", strJ "actions"), ("as", .null)]
+  | .actions (some as) => mkObj [("t", strJ "actions"), ("as", arrJ ((sortStr as).map strJ))]
+  | .run o => mkObj [("t", strJ "run"), ("retry", boolJ o.retry), ("rem", intJ o.remaining), ("err", boolJ o.err)]
+
+def objsJ (m : AMap (List String)) : Json :=
+  arrJ <| (sortBy (·.1) m).map fun (a, names) => arrJ [strJ a, arrJ ((sortStr names).map strJ)]
+
+def expDump (now : Nat) (st : ExpStore) : Json :=
+  arrJ <| (sortBy (·.1) st).map fun (k, e) =>
+    mkObj [("key", strJ k), ("objs", objsJ e.objs), ("unsat", optJ (fun t => natJ (now - t)) e.firstUnsat)]
+
+def restJ : Rest → Json
+  | .none => .null
+  | .one a names => mkObj [("a", strJ a), ("names", arrJ ((sortStr names).map strJ))]
+  | .ambiguous => strJ "ambiguous"
+
+def createOutS : CreateOut → String
+  | .alreadyExists => "alreadyExists" | .blocked => "blocked" | .stableErr => "stableErr"
+  | .createErr => "createErr" | .created => "created"
+
+def eobsJ : EObs → Json
+  | .unit => mkObj [("t", strJ "unit")]
+  | .sat o => mkObj [("t", strJ "sat"), ("ok", boolJ o.ok), ("since", natJ o.since), ("rest", restJ o.rest)]
+  | .objs none => mkObj [("t", strJ "objs"), ("m", .null)]
+  | .objs (some m) => mkObj [("t", strJ "objs"), ("m", objsJ m)]
+  | .created o => mkObj [("t", strJ "created"), ("res", strJ (createOutS o))]
+
+def obsListJ {Obs : Type} (f : Obs → Json) (l : List (Nat × Obs)) : Json :=
+  arrJ (l.map fun (r, o) => mkObj [("r", natJ r), ("o", f o)])
+
+/-! ## comparison helpers on the implementation's records -/
+
+def jeq (a b : Json) : Bool := a.compress == b.compress
+
+/-- the impl's `obs` records of rollout r -/
+def implObsOf (r : Nat) (obs : List Json) : List Json :=
+  obs.filter fun o => match o.getObjVal? "r" with
+    | .ok v => (v.getNat?.toOption == some r)
+    | _ => false
+
+/-- rows of a grace dump whose key is selected -/
+def dumpRestrict (p : String → Bool) (d : Json) : Json :=
+  match d with
+  | .arr rows => .arr (rows.filter fun row => match row with
+      | .arr cols => (match cols[0]? with | some (Json.str k) => p k | _ => false)
+      | .obj _ => (match row.getObjVal? "key" with | .ok (Json.str k) => p k | _ => false)
+      | _ => false)
+  | x => x
+
+/-- keys under which a dump differs from the previous one -/
+def dumpKeys (d : Json) : List String :=
+  match d with
+  | .arr rows => (rows.toList.filterMap fun row => match row with
+      | .arr cols => (match cols[0]? with | some (Json.str k) => some k | _ => none)
+      | .obj _ => (match row.getObjVal? "key" with | .ok (Json.str k) => some k | _ => none)
+      | _ => none).eraseDups
+  | _ => []
+
+def touchedKeys (before after : Json) : List String :=
+  ((dumpKeys before) ++ (dumpKeys after)).eraseDups.filter fun k =>
+    !(jeq (dumpRestrict (· == k) before) (dumpRestrict (· == k) after))
+
+def setField (j : Json) (k : String) (v : Json) : Json := j.setObjVal! k v
+
+/-- rows (key, action, age) of a grace dump -/
+def dumpRows (d : Json) : List (String × String × Int) :=
+  match d with
+  | .arr rows => rows.toList.filterMap fun row => match row with
+    | .arr cols => (match cols[0]?, cols[1]?, cols[2]? with
+      | some (Json.str k), some (Json.str a), some v => some (k, a, (v.getInt?.toOption).getD 0)
+      | _, _, _ => none)
+    | _ => none
+  | _ => []
+
+def ownActions : String → List String
+  | "patchStableService" => ["patchService"]
+  | "restoreStableService" => ["restoreService"]
+  | "restoreGateway" => ["restoreGateway"]
+  | "removeCanaryService" => ["removeCanaryService"]
+  | "routeAllToNew" => ["updateRoute"]
+  | "finalisingTrafficRouting" => ["restoreService", "restoreGateway", "removeCanaryService"]
+  | _ => []
+
+def allTrue (l : List Bool) : Bool := l.all id
+
+/-! ## op grace / exp -/
+
+def handleGrace (inp impl : Json) : R OpResult := do
+  let owners ← fNat inp "owners"
+  let evs ← (← rawEvents inp).mapM fun e => match e with
+    | .op r j => do return Ev.op r (← gopOf (← jget j "g"))
+    | .tick d => pure (Ev.tick d)
+    | .clean iv => pure (Ev.glob iv)
+  let rs := (List.range owners).map (· + 1)
+  let j := Grace.run (0, []) evs
+  let jointJ := mkObj [("obs", obsListJ gobsJ j.2), ("final", graceDump j.1.1 j.1.2)]
+  let soloJ := rs.map fun r =>
+    let s := Grace.run (0, []) (proj r evs)
+    mkObj [("obs", obsListJ gobsJ s.2), ("final", graceDump s.1.1 s.1.2), ("r", natJ r)]
+  -- oracle on the implementation
+  let keysOf (r : Nat) : List String := evs.filterMap fun e => match e with
+    | .op r' o => if r' = r then some o.key else none
+    | _ => none
+  let sep := rs.all fun r => sepFor (fun o : GOp => [o.key]) (fun k => (keysOf r).contains k) r evs
+  let implJoint ← jget impl "joint"
+  let implSolo ← fArrD impl "solo"
+  let jobs ← fArrD implJoint "obs"
+  let jfinal ← jget implJoint "final"
+  let same ← (rs.zip implSolo).mapM fun (r, s) => do
+    let sobs ← fArrD s "obs"
+    return jeq (arrJ (implObsOf r jobs)) (arrJ sobs) &&
+      jeq (dumpRestrict (fun k => (keysOf r).contains k) jfinal) (← jget s "final")
+  let nOps := evs.filter (fun e => match e with | .op _ _ => true | _ => false) |>.length
+  let ops := evs.filterMap fun e => match e with | .op _ o => some o | _ => none
+  let errRep := (ops.zip jobs).all fun (o, ob) => match o with
+    | .run _ _ _ _ er =>
+      let oj := (ob.getObjVal? "o").toOption.getD .null
+      errorReported er (fBoolD oj "retry" false) (fBoolD oj "err" false)
+    | _ => true
+  return { model := mkObj [("joint", jointJ), ("solo", arrJ soloJ)],
+           holds := (if sep then [("C19.same_as_solo", allTrue same)] else []) ++ [("C19.closure_error_reported", errRep)],
+           tags := ["op:grace", s!"n:{owners}", if sep then "mode:distinct" else "mode:overlap"] ++
+             (if nOps < 2 then ["trivial"] else []) ++
+             (if evs.any (fun e => match e with | .tick _ => true | _ => false) then ["ticks"] else []) ++
+             (if evs.any (fun e => match e with | .glob _ => true | _ => false) then ["cleaner"] else []) ++
+             (if j.2.any (fun o => match o.2 with | .run ro => ro.retry | _ => false) then ["retrySeen"] else []) }
+
+def handleExp (inp impl : Json) : R OpResult := do
+  let owners ← fNat inp "owners"
+  let evs ← (← rawEvents inp).mapM fun e => match e with
+    | .op r j => do return Ev.op r (← eopOf (← jget j "e"))
+    | .tick d => pure (Ev.tick d)
+    | .clean iv => pure (Ev.glob iv)
+  let rs := (List.range owners).map (· + 1)
+  let j := ExpStore.run (0, []) evs
+  let jointJ := mkObj [("obs", obsListJ eobsJ j.2), ("final", expDump j.1.1 j.1.2)]
+  let soloJ := rs.map fun r =>
+    let s := ExpStore.run (0, []) (proj r evs)
+    mkObj [("obs", obsListJ eobsJ s.2), ("final", expDump s.1.1 s.1.2), ("r", natJ r)]
+  let keysOf (r : Nat) : List String := evs.flatMap fun e => match e with
+    | .op r' o => if r' = r then o.keys else []
+    | _ => []
+  let sep := rs.all fun r => sepFor EOp.keys (fun k => (keysOf r).contains k) r evs
+  let implJoint ← jget impl "joint"
+  let implSolo ← fArrD impl "solo"
+  let jobs ← fArrD implJoint "obs"
+  let jfinal ← jget implJoint "final"
+  let same ← (rs.zip implSolo).mapM fun (r, s) => do
+    let sobs ← fArrD s "obs"
+    return jeq (arrJ (implObsOf r jobs)) (arrJ sobs) &&
+      jeq (dumpRestrict (fun k => (keysOf r).contains k) jfinal) (← jget s "final")
+  let nOps := evs.filter (fun e => match e with | .op _ _ => true | _ => false) |>.length
+  return { model := mkObj [("joint", jointJ), ("solo", arrJ soloJ)],
+           holds := if sep then [("C19.same_as_solo", allTrue same)] else [],
+           tags := ["op:exp", s!"n:{owners}", if sep then "mode:distinct" else "mode:overlap"] ++
+             (if nOps < 2 then ["trivial"] else []) ++
+             (if j.2.any (fun o => match o.2 with | .sat so => !so.ok | _ => false) then ["unsatisfiedSeen"] else []) }
+
+/-! ## op manager -/
+
+structure Ro where
+  r : Nat
+  ns : String
+  name : String
+  uid : String
+  svc : String
+  ing : String
+  graces : List Int
+  disableGen : Bool
+  noProvider : Bool
+
+structure Svc where
+  ns : String
+  name : String
+  uid : String
+
+def roOf (j : Json) : R Ro := do
+  return { r := ← fNat j "r", ns := ← fStr j "ns", name := ← fStr j "name", uid := ← fStr j "uid", svc := ← fStr j "svc",
+           ing := ← fStr j "ing", graces := ← (← fArrD j "graces").mapM jint, disableGen := ← fBool j "disableGen",
+           noProvider := ← fBool j "noProvider" }
+
+def svcOf (j : Json) : R Svc := do
+  return { ns := ← fStr j "ns", name := ← fStr j "name", uid := ← fStr j "uid" }
+
+def Ro.ctx (ro : Ro) : TRCtx :=
+  { ns := ro.ns, ownerUID := ro.uid, refs := ro.graces.map (fun g => ⟨ro.svc, g⟩), onlyTrafficRouting := false,
+    disableGen := ro.disableGen }
+
+def Ro.ident (svcs : List Svc) (ro : Ro) : RIdent :=
+  { ns := ro.ns, ownerUID := ro.uid, svc := ro.svc,
+    svcUID := match svcs.find? (fun s => s.ns == ro.ns && s.name == ro.svc) with
+      | some s => s.uid
+      | none => s!"absent-service-of-{ro.r}" }
+
+def Ro.footprint (ro : Ro) : List String :=
+  (RV.Isolation.footprint ro.ns ro.svc ro.ing false ro.disableGen).map fun (k, ns, n) => k ++ " " ++ nsName ns n
+
+def closureOf (step : Json) (i : Nat) : R Closure := do
+  match (← fArrD step "cl")[i]? with
+  | some c => return ⟨← fBool c "modified", ← fBool c "err"⟩
+  | none => return ⟨false, false⟩
+
+/-- `found`: the UID of the stable Service as the API server had it when the call started (`none` = absent) -/
+def mcall (site : Site) (ro : Ro) (dflt : Int) (found : Option String) (cl : Closure) : MCall :=
+  { site := site, c := ro.ctx, defaultGrace := dflt,
+    stable := match found with
+      | some uid => .ok ⟨ro.ns, ro.svc, uid⟩
+      | none => .notFound,
+    providerErr := ro.noProvider, cl := cl }
+
+/-- run the model along the implementation's step records; returns the model's records -/
+def runManager (ros : List Ro) (dflt : Int) (evs : List RawEv) (only : Option Nat) (steps : List Json) :
+    R (List Json × Nat × Grace) := do
+  let mut now := 0
+  let mut g : Grace := []
+  let mut rest := steps
+  let mut out : List Json := []
+  for e in evs do
+    match e with
+    | .tick d => now := now + d
+    | .clean iv => g := g.cleanOutdated now iv
+    | .op r ej =>
+      if only.isSome ∧ only ≠ some r then continue
+      let call ← fStr ej "call"
+      match rest with
+      | [] => throw "isolation: implementation reported fewer steps than events"
+      | s :: more =>
+        rest := more
+        if (← fNat s "r") ≠ r ∨ (← fStr s "call") ≠ call then throw "isolation: step record does not match its event"
+        match ros.find? (·.r == r) with
+        | none => throw s!"isolation: unknown rollout {r}"
+        | some ro =>
+          let found ← fOptStr s "stable"
+          let pre := graceDump now g
+          let single (site : Site) : R Json := do
+            let x := mcall site ro dflt found (← closureOf s 0)
+            let res := managerCall g now x
+            pure (setField (setField (setField s "b" (boolJ res.2.retry)) "err" (boolJ res.2.err)) "rem" (intJ res.2.remaining))
+          let mut recd := s
+          match call with
+          | "patchStableService" =>
+            recd ← single .patchService
+            g := (managerCall g now (mcall .patchService ro dflt found (← closureOf s 0))).1
+          | "restoreStableService" =>
+            recd ← single .restoreService
+            g := (managerCall g now (mcall .restoreService ro dflt found (← closureOf s 0))).1
+          | "restoreGateway" =>
+            recd ← single .restoreGateway
+            g := (managerCall g now (mcall .restoreGateway ro dflt found (← closureOf s 0))).1
+          | "removeCanaryService" =>
+            recd ← single .removeCanaryService
+            g := (managerCall g now (mcall .removeCanaryService ro dflt found (← closureOf s 0))).1
+          | "routeAllToNew" =>
+            recd ← single .updateRoute
+            g := (managerCall g now (mcall .updateRoute ro dflt found (← closureOf s 0))).1
+          | "finalisingTrafficRouting" =>
+            let a := mcall .restoreService ro dflt found (← closureOf s 0)
+            let b := mcall .restoreGateway ro dflt found (← closureOf s 1)
+            let c := mcall .removeCanaryService ro dflt found (← closureOf s 2)
+            let res := finalising g now a b c
+            recd := setField (setField (setField s "b" (boolJ res.2.done)) "err" (boolJ res.2.err)) "rem" (intJ res.2.recheck)
+            g := res.1
+          | "doTrafficRouting" => pure ()      -- does not use the shared helpers
+          | c => throw s!"isolation: unknown call {c}"
+          out := out ++ [setField (setField recd "pre" pre) "store" (graceDump now g)]
+  return (out, now, g)
+
+def stepsOf (r : Nat) (steps : List Json) : List Json := implObsOf r steps
+
+def restrictStore (p : String → Bool) (s : Json) : Json :=
+  let s := match s.getObjVal? "store" with
+    | .ok d => setField s "store" (dumpRestrict p d)
+    | _ => s
+  match s.getObjVal? "pre" with
+  | .ok d => setField s "pre" (dumpRestrict p d)
+  | _ => s
+
+/-- keys of the shared map that the steps of every rollout changed, from the impl's store records -/
+def usedKeys (rs : List Nat) (steps : List Json) : List (Nat × List String) := Id.run do
+  let mut acc : List (Nat × List String) := rs.map (·, [])
+  for s in steps do
+    let cur := (s.getObjVal? "store").toOption.getD (.arr #[])
+    let prev := (s.getObjVal? "pre").toOption.getD (.arr #[])
+    let r := ((s.getObjVal? "r").toOption.bind (·.getNat?.toOption)).getD 0
+    let t := touchedKeys prev cur
+    acc := acc.map fun (r', ks) => if r' = r then (r', (ks ++ t).eraseDups) else (r', ks)
+  return acc
+
+def writesOf (s : Json) : List String :=
+  match s.getObjVal? "writes" with
+  | .ok (.arr ws) => ws.toList.filterMap fun w => match w with
+    | .arr cols => (match cols[1]?, cols[2]? with
+      | some (Json.str k), some (Json.str o) => some (k ++ " " ++ o)
+      | _, _ => none)
+    | _ => none
+  | _ => []
+
+def handleManager (inp impl : Json) : R OpResult := do
+  let ros ← (← fArrD inp "rollouts").mapM roOf
+  let svcs ← (← fArrD inp "services").mapM svcOf
+  let dflt ← fInt inp "defaultGrace"
+  let evs ← rawEvents inp
+  let implJoint ← jget impl "joint"
+  let implSolo ← fArrD impl "solo"
+  let jsteps ← fArrD implJoint "steps"
+  let (mj, jnow, jg) ← runManager ros dflt evs none jsteps
+  let jointJ := mkObj [("steps", arrJ mj), ("final", graceDump jnow jg)]
+  let soloJ ← (ros.zip implSolo).mapM fun (ro, s) => do
+    let (ms, snow, sg) ← runManager ros dflt evs (some ro.r) (← fArrD s "steps")
+    return mkObj [("steps", arrJ ms), ("final", graceDump snow sg), ("r", natJ ro.r)]
+  -- who is who
+  let ids := ros.map fun ro => (ro.r, ro.ident svcs)
+  let distinct := allDistinct ids
+  let clash := ros.any fun a => ros.any fun b => a.r != b.r &&
+    !(noNameClash a.ns a.svc a.ing false a.disableGen b.ns b.svc b.ing false b.disableGen)
+  -- oracles on the implementation's records
+  let same ← (ros.zip implSolo).mapM fun (ro, s) => do
+    let p := fun k => (ro.ident svcs).keys.contains k
+    let ssteps ← fArrD s "steps"
+    return jeq (arrJ ((stepsOf ro.r jsteps).map (restrictStore p))) (arrJ (ssteps.map (restrictStore p)))
+  let used := usedKeys (ros.map (·.r)) jsteps
+  let within := jsteps.all fun s =>
+    let r := ((s.getObjVal? "r").toOption.bind (·.getNat?.toOption)).getD 0
+    match ros.find? (·.r == r) with
+    | some ro => (writesOf s).all ro.footprint.contains
+    | none => false
+  let calls := jsteps.filterMap fun s => (s.getObjVal? "call").toOption.bind (·.getStr?.toOption)
+  let anyB (k : String) := jsteps.any fun s => fBoolD s k false
+  let aframe := jsteps.all fun s =>
+    actionFrame (ownActions (fStrD s "call" ""))
+      (dumpRows ((s.getObjVal? "pre").toOption.getD .null)) (dumpRows ((s.getObjVal? "store").toOption.getD .null))
+  -- a write that failed (injected fault) must surface as an error of the call, which then never reports completion
+  let errRep := jsteps.all fun s =>
+    let fault := match s.getObjVal? "writes" with
+      | .ok (.arr ws) => ws.toList.any fun w => match w with
+        | .arr cols => (match cols[3]? with | some (Json.bool ok) => !ok | _ => false)
+        | _ => false
+      | _ => false
+    let call := fStrD s "call" ""
+    if call == "finalisingTrafficRouting" || call == "doTrafficRouting" then !fault || (fBoolD s "err" false && !fBoolD s "b" true)
+    else errorReported fault (fBoolD s "b" false) (fBoolD s "err" false)
+  return { model := mkObj [("joint", jointJ), ("solo", arrJ soloJ)],
+           holds := (if distinct then [("C19.same_as_solo", allTrue same), ("C19.keys_distinct", keysDistinct used)] else []) ++
+                    [("C19.writes_within_footprint", within), ("C19.action_frame", aframe), ("C19.closure_error_reported", errRep)],
+           tags := ["op:manager", s!"n:{ros.length}",
+                    if !distinct then "mode:sharedObjects" else if clash then "mode:nameClash" else "mode:distinct"] ++
+             (if clash ∧ distinct then ["guard:canaryNameClash"] else []) ++
+             (if calls.length < 2 then ["trivial"] else []) ++
+             (if evs.any (fun e => match e with | .tick _ => true | _ => false) then ["ticks"] else []) ++
+             (if evs.any (fun e => match e with | .clean _ => true | _ => false) then ["cleaner"] else []) ++
+             (if anyB "err" then ["errSeen"] else []) ++
+             (if jsteps.any (fun s => fBoolD s "b" false && (fStrD s "call" "") != "doTrafficRouting" && (fStrD s "call" "") != "finalisingTrafficRouting") then ["retrySeen"] else []) ++
+             (if (ros.map (·.graces)).eraseDups.length > 1 then ["differentGrace"] else []) ++
+             (if ros.any (fun a => ros.any fun b => a.r != b.r && a.svc == b.svc && a.ns != b.ns) then ["sameServiceNameOtherNs"] else []) ++
+             (calls.eraseDups.map (fun c => s!"call:{c}")) }
+
+/-! ## op brexp -/
+
+structure Rel where
+  r : Nat
+  ns : String
+  name : String
+  hasWorkload : Bool
+
+def runBr (rels : List Rel) (timeout : Nat) (evs : List RawEv) (only : Option Nat) (steps : List Json) :
+    R (List Json × Nat × ExpStore) := do
+  let mut now := 0
+  let mut st : ExpStore := []
+  let mut rest := steps
+  let mut out : List Json := []
+  for e in evs do
+    match e with
+    | .tick d => now := now + d
+    | .clean _ => pure ()
+    | .op r ej =>
+      if only.isSome ∧ only ≠ some r then continue
+      let call ← fStr ej "call"
+      match rest with
+      | [] => throw "isolation: implementation reported fewer steps than events"
+      | s :: more =>
+        rest := more
+        if (← fNat s "r") ≠ r ∨ (← fStr s "call") ≠ call then throw "isolation: step record does not match its event"
+        match rels.find? (·.r == r) with
+        | none => throw s!"isolation: unknown release {r}"
+        | some rel =>
+          let mut recd := s
+          let pre := expDump now st
+          match call with
+          | "create" =>
+            let createOk := (jopt ej "failAt").isNone
+            let res := brCreate st now timeout rel.ns rel.name (← fBool s "known") rel.hasWorkload createOk (fStrD s "uid" "")
+            st := res.1
+            recd := setField s "res" (strJ (createOutS res.2))
+          | "deliver" | "deliverForeign" =>
+            match jopt s "obj" with
+            | none => pure ()
+            | some o =>
+              let owner : Option Owner := match jopt o "ownerKind" with
+                | some (.str k) => some ⟨k, fStrD o "ownerName" ""⟩
+                | _ => none
+              st := brObserved st (← fStr o "ns") (← fStr o "uid") owner
+          | c => throw s!"isolation: unknown call {c}"
+          out := out ++ [setField (setField recd "pre" pre) "store" (expDump now st)]
+  return (out, now, st)
+
+def createOutOf : String → CreateOut
+  | "alreadyExists" => .alreadyExists | "blocked" => .blocked | "stableErr" => .stableErr
+  | "createErr" => .createErr | _ => .created
+
+/-- `createAllowed` on one implementation record: the key's row of the store before the call -/
+def createAllowedJ (timeout : Nat) (ck : String) (s : Json) : Bool :=
+  let row : Option Json := match s.getObjVal? "pre" with
+    | .ok (.arr rows) => rows.toList.find? fun r => match r.getObjVal? "key" with | .ok (Json.str k) => k == ck | _ => false
+    | _ => none
+  let pending := match row with
+    | some r => (match r.getObjVal? "objs" with
+      | .ok (.arr os) => os.toList.any fun o => match o with
+        | .arr cols => (match cols[1]? with | some (Json.arr names) => names.size > 0 | _ => false)
+        | _ => false
+      | _ => false)
+    | none => false
+  let unsat : Option Nat := match row with
+    | some r => (match r.getObjVal? "unsat" with | .ok v => v.getNat?.toOption | _ => none)
+    | none => none
+  createAllowed pending unsat timeout (createOutOf (fStrD s "res" ""))
+
+def handleBr (inp impl : Json) : R OpResult := do
+  let rels ← (← fArrD inp "releases").mapM fun j => do
+    return ({ r := ← fNat j "r", ns := ← fStr j "ns", name := ← fStr j "name", hasWorkload := ← fBool j "hasWorkload" } : Rel)
+  let timeout ← fNat inp "timeout"
+  let evs ← rawEvents inp
+  let implJoint ← jget impl "joint"
+  let implSolo ← fArrD impl "solo"
+  let jsteps ← fArrD implJoint "steps"
+  let (mj, jnow, jst) ← runBr rels timeout evs none jsteps
+  let jointJ := mkObj [("steps", arrJ mj), ("final", expDump jnow jst)]
+  let soloJ ← (rels.zip implSolo).mapM fun (rel, s) => do
+    let (ms, snow, sst) ← runBr rels timeout evs (some rel.r) (← fArrD s "steps")
+    return mkObj [("steps", arrJ ms), ("final", expDump snow sst), ("r", natJ rel.r)]
+  let distinct := brAllDistinct (rels.map fun x => (x.r, x.ns, x.name))
+  let same ← (rels.zip implSolo).mapM fun (rel, s) => do
+    let p := fun k => k == nsName rel.ns rel.name
+    let ssteps ← fArrD s "steps"
+    return jeq (arrJ ((stepsOf rel.r jsteps).map (restrictStore p))) (arrJ (ssteps.map (restrictStore p)))
+  let used := usedKeys (rels.map (·.r)) jsteps
+  let results := jsteps.filterMap fun s => (s.getObjVal? "res").toOption.bind (·.getStr?.toOption)
+  return { model := mkObj [("joint", jointJ), ("solo", arrJ soloJ)],
+           holds := (if distinct then [("C19.same_as_solo", allTrue same), ("C19.keys_distinct", keysDistinct used)] else []) ++
+             [("C19.create_respects_expectation", jsteps.all fun s =>
+                if fStrD s "call" "" == "create" then
+                  (match rels.find? (fun x => some x.r == ((s.getObjVal? "r").toOption.bind (·.getNat?.toOption))) with
+                   | some rel => createAllowedJ timeout (nsName rel.ns rel.name) s
+                   | none => false)
+                else true)],
+           tags := ["op:brexp", s!"n:{rels.length}", if distinct then "mode:distinct" else "mode:sharedObjects"] ++
+             (if results.length < 2 then ["trivial"] else []) ++ (results.eraseDups.map (fun c => s!"create:{c}")) ++
+             (if rels.any (fun a => rels.any fun b => a.r != b.r && a.name == b.name && a.ns != b.ns) then ["sameNameOtherNs"] else []) }
+
+/-! ## op watch -/
+
+def isSubset (a b : List String) : Bool := a.all b.contains
+
+def strsOf (j : Json) (k : String) : List String :=
+  match j.getObjVal? k with
+  | .ok (.arr xs) => xs.toList.filterMap (·.getStr?.toOption)
+  | _ => []
+
+def handleWatch (inp impl : Json) : R OpResult := do
+  let ros ← (← fArrD inp "rollouts").mapM fun j => do
+    return ((← fNat j "r"), (← fStr j "apiVersion") ++ ", Kind=" ++ (← fStr j "kind"))
+  let evs ← rawEvents inp
+  let runW (only : Option Nat) : R Json := do
+    let mut w := staticKinds
+    let mut out : List Json := []
+    for e in evs do
+      match e with
+      | .op r _ =>
+        if only.isSome ∧ only ≠ some r then continue
+        match ros.lookup r with
+        | none => throw s!"isolation: unknown rollout {r}"
+        | some gvk =>
+          let res := reconcileWatch w gvk true
+          w := res.1
+          out := out ++ [mkObj [("r", natJ r), ("added", arrJ (if res.2.1 then [strJ gvk] else [])),
+            ("registry", arrJ ((sortStr (w.filter (!staticKinds.contains ·))).map strJ)), ("panic", boolJ false)]]
+      | _ => pure ()
+    return mkObj [("steps", arrJ out)]
+  let jointJ ← runW none
+  let soloJ ← ros.mapM fun (r, _) => do return setField (← runW (some r)) "r" (natJ r)
+  let implJoint ← jget impl "joint"
+  let implSolo ← fArrD impl "solo"
+  let jsteps ← fArrD implJoint "steps"
+  -- frame on the implementation: the registry only grows, and only by the reconciled rollout's own kind
+  let frame := Id.run do
+    let mut prev : List String := []
+    let mut ok := true
+    for s in jsteps do
+      let cur := strsOf s "registry"
+      let r := ((s.getObjVal? "r").toOption.bind (·.getNat?.toOption)).getD 0
+      let own := (ros.lookup r).getD ""
+      ok := ok && isSubset prev cur && (cur.filter (!prev.contains ·)).all (· == own)
+      prev := cur
+    return ok
+  let unshared (r : Nat) : Bool := match ros.lookup r with
+    | some gvk => staticKinds.contains gvk || !(ros.any fun (r', g) => r' != r && g == gvk)
+    | none => false
+  let same ← (ros.zip implSolo).mapM fun ((r, _), s) => do
+    if !unshared r then return true
+    let proj := fun (x : Json) => mkObj [("added", (x.getObjVal? "added").toOption.getD .null)]
+    return jeq (arrJ ((stepsOf r jsteps).map proj)) (arrJ ((← fArrD s "steps").map proj))
+  let dyn := ros.filter fun (_, g) => !staticKinds.contains g
+  return { model := mkObj [("joint", jointJ), ("solo", arrJ soloJ)],
+           holds := [("C19.watch_frame", frame), ("C19.same_as_solo", allTrue same)],
+           tags := ["op:watch", s!"n:{ros.length}", s!"dynamicKinds:{(dyn.map (·.2)).eraseDups.length}"] ++
+             (if dyn.isEmpty then ["trivial"] else []) ++
+             (if dyn.any (fun (r, _) => !unshared r) then ["sharedDynamicKind"] else []) }
+
+/-! ## op race -/
+
+def handleRace (inp : Json) : R OpResult := do
+  match jopt inp "result" with
+  | none => return { model := mkObj [], holds := [], tags := ["op:race", "race:not-run", "trivial", "supporting"] }
+  | some res =>
+    let built := fBoolD res "built" false
+    let races ← fIntD res "races" 0
+    let failed := fBoolD res "failed" false
+    let ran := fBoolD inp "ran" false
+    if !built then
+      return { model := mkObj [], holds := [], tags := ["op:race", "race:unavailable", "trivial", "supporting"] }
+    return { model := mkObj [], holds := [("C19.race_free_supporting", races == 0 && !failed)],
+             tags := ["op:race", "supporting", if races == 0 && !failed then "race:clean" else "race:REPORTED",
+                      if ran then "race:ran-now" else "race:recorded-earlier", "trivial"] }
+
+def handle : Handler := fun op inp impl => do
+  match jopt impl "panic" with
+  | some _ => return { model := .null, holds := [("C19.no_panic", false)], tags := [s!"op:{op}", "panic"] }
+  | none =>
+    match op with
+    | "grace" => handleGrace inp impl
+    | "exp" => handleExp inp impl
+    | "manager" => handleManager inp impl
+    | "brexp" => handleBr inp impl
+    | "watch" => handleWatch inp impl
+    | "race" => handleRace inp
+    | _ => .error s!"isolation: unknown op {op}"
+
 end RV.Drv.Isolation
